@@ -94,12 +94,12 @@ theorem shortEscape_rfc (ch l : Nat) (h : shortEscape ch = some l) : rfcEsc l = 
   · rename_i hc
     have hr : ch = 8 ∨ ch = 9 ∨ ch = 10 ∨ ch = 11 ∨ ch = 12 ∨ ch = 13 := by
       have := hc.1; have := hc.2.1
-      simp only [Gen.jsonEscLo, Gen.jsonEscHi] at *
+      simp only [Gen.Json.jsonEscLo, Gen.Json.jsonEscHi] at *
       omega
     rcases hr with rfl | rfl | rfl | rfl | rfl | rfl
     all_goals first
-      | (simp [Gen.jsonEscExcluded] at hc; done)
-      | (simp [Gen.jsonSpecials, Gen.jsonEscLo] at h; subst h; simp [rfcEsc])
+      | (simp [Gen.Json.jsonEscExcluded] at hc; done)
+      | (simp [Gen.Json.jsonSpecials, Gen.Json.jsonEscLo] at h; subst h; simp [rfcEsc])
   · simp at h
 
 theorem writeBody_nil (cpf : Bool) (skip : Nat) : writeBody cpf skip [] = .ok [] := by
